@@ -398,3 +398,6 @@ def run(tier, seed):
                 shards.append(("tour", 4, (a, b)))
     col = run_shards(_shard, shards)
     return col, {"exhaustive": True, "vector_lattice": LAT, "tie_free_values": UNEVEN}
+
+
+RULE += (' Pools that mix the carrier classes of the framework (Individual, IndividualNSGAII, IndividualEpsMOEA, IndividualSwarm, loaded from a dict) in every rotation, n<=3.')
